@@ -109,6 +109,20 @@ CHECKS = {
         "assumptions": COMMON_ASSUME,
         "design_ref": "DESIGN.md §5 C09",
     },
+    "C10": {
+        "level": "model_checking", "shards": 16, "deadline_quick": 110, "deadline_thorough": 1800,
+        "engine": "E-SEQ on the real peerScore",
+        "technique": "explicit-state model checking of the implementation: BFS by replay of the real peerScore (driven through its tracer/router entry points, stub host for IPs, virtual clock) in lock-step with an independently written reference implementation of the v1.1 scoring function",
+        "rule": "state = canonical dump of the real peerScore (all counters, delivery records, IP tracking) + harness inputs (app scores, IP assignment, connections, clock phase); a transition is one scoring event; "
+                "non-trivial = distinct canonical observation log (the scores after every event)",
+        "level_text": "every history up to the depth bound over connect / disconnect / reconnect, graft / prune (scored and unscored topic), validate, deliver, reject with six reasons, duplicates before / inside / outside the delivery window, "
+                      "behaviour penalties, decay ticks, delivery-record gc, cap-lowering parameter updates, IP (re)assignment with colocation and whitelist, application score changes and time advances on both sides of quantum, activation, window and retention, "
+                      "for two full parameter sets, a peer-level partially specified set and the SkipAtomicValidation subsets of topic parameter groups; score and every counter are compared with the reference after every event, plus sign / cap / NaN invariants; "
+                      "a second part starts a real node with every accepted parameter set",
+        "level_note": "mesh time and activation are sampled at decay ticks in both implementation and reference (documented optimisation); equality is asserted after every event",
+        "assumptions": COMMON_ASSUME + ["the reference model in harness/c10.go is a faithful reading of the GossipSub v1.1 scoring specification"],
+        "design_ref": "DESIGN.md §5 C10",
+    },
     "C11": {
         "level": "exploration", "shards": 16, "deadline_quick": 100, "deadline_thorough": 1500,
         "engine": "E-SEQ (inputs)",
